@@ -1,2 +1,38 @@
-From HV Require Import Model.Ref.
-Theorem C09_tmp : True. Proof. exact I. Qed.
+(* C09 - reference targets are exactly the addressable declarations the schema describes
+   (partial: the address construction of blocks is modelled and proved; collection as a whole is
+   decided on the implementation against generator ground truth). *)
+From Coq Require Import String List ZArith Bool.
+From HV Require Import Model.Addr Model.Collect Proofs.CollectProofs.
+Import ListNotations.
+
+Theorem C09_static_step_contributes_its_name : forall labels attr_val i n rest acc,
+  resolve_steps labels attr_val i (AStatic n :: rest) acc = resolve_steps labels attr_val (S i) rest (acc ++ [mk_step i n])%list.
+Proof. exact static_step_contributes_its_name. Qed.
+Print Assumptions C09_static_step_contributes_its_name.
+
+Theorem C09_label_step_contributes_the_label : forall labels attr_val i idx l rest acc,
+  nth_error labels idx = Some l ->
+  resolve_steps labels attr_val i (ALabel idx :: rest) acc = resolve_steps labels attr_val (S i) rest (acc ++ [mk_step i l])%list.
+Proof. exact label_step_contributes_the_label. Qed.
+Print Assumptions C09_label_step_contributes_the_label.
+
+Theorem C09_attr_value_step_contributes_the_value : forall labels attr_val i n o v rest acc,
+  attr_val n = AVStr v ->
+  resolve_steps labels attr_val i (AAttrValue n o :: rest) acc = resolve_steps labels attr_val (S i) rest (acc ++ [mk_step i v])%list.
+Proof. exact attr_value_step_contributes_the_value. Qed.
+Print Assumptions C09_attr_value_step_contributes_the_value.
+
+(* the address extends what was resolved so far by at most one step per schema step *)
+Theorem C09_address_from_declared_steps : forall labels attr_val steps i acc a,
+  resolve_steps labels attr_val i steps acc = Some a ->
+  exists suffix, a = (acc ++ suffix)%list /\ (length suffix <= length steps)%nat.
+Proof. exact resolve_steps_extends. Qed.
+Print Assumptions C09_address_from_declared_steps.
+
+(* a block that lacks a label its address needs is not addressable: no target *)
+Theorem C09_missing_label_no_address : forall labels attr_val pre idx rest i acc,
+  nth_error labels idx = None ->
+  Forall (fun s => match s with AStatic _ => True | _ => False end) pre ->
+  resolve_steps labels attr_val i (pre ++ ALabel idx :: rest) acc = None.
+Proof. exact missing_label_no_address. Qed.
+Print Assumptions C09_missing_label_no_address.
